@@ -55,6 +55,14 @@ theorem coherent_match (o : Oracle) (ops : List Op) (m : Route → Bool) (n host
     matchRoute o m ((rebuildRouters o (dump (run o ops)) n).join) host := by
   rw [coherent_routes]
 
+/-- **coherent (listeners)**: after every history, for every listener name, what the live listener serves new connections with
+(stream filters registered for it, network filter factories, idle timeout) and its config are exactly what a fresh start builds
+from the dumped listener config — including "no such listener". -/
+theorem coherent_listeners (o : Oracle) (ops : List Op) :
+    (run o ops).listeners = rebuildListeners (dump (run o ops)) := by
+  funext n
+  exact listeners_coherent (linv_run o ops) n
+
 /-! ## last update wins -/
 
 /-- **last_wins (routers)**: a successful `AddOrUpdateRouters cfg` leaves exactly `cfg` in the store and `NewRouters cfg` live,
@@ -139,6 +147,31 @@ theorem last_wins_cluster_inherit (o : Oracle) (s : State) (hI : Inv o s) (c : S
   obtain ⟨_, h2⟩ := updateCluster_clusters s c tag cfgHosts inheritHosts
   exact ⟨h2, (hI'.c_some c _ h2).1⟩
 
+/-- **last_wins (listener)**: a successful `AddOrUpdateListener` leaves the new stream filters, network filters and idle
+timeout serving AND stored, under the name the listener is registered as (an update keeps the fields it does not copy). -/
+theorem last_wins_listener (o : Oracle) (s : State) (hL : LInv s) (lc : ListenerCfg)
+    (hok : (step o s (.addOrUpdateListener lc)).2 = true) :
+    ∃ al, (step o s (.addOrUpdateListener lc)).1.listeners (effName lc) = some al ∧
+      (step o s (.addOrUpdateListener lc)).1.lstore (effName lc) = some al.cfg ∧
+      al.sf = lc.sf ∧ al.nf = lc.nf ∧ al.idle = lc.idle ∧ al.cfg.sf = lc.sf ∧ al.cfg.nf = lc.nf ∧ al.cfg.idle = lc.idle ∧
+      al.cfg.addr = lc.addr ∧
+      (∀ old, s.listeners (effName lc) = some old → al.cfg.keep = old.cfg.keep) := by
+  have hL' := linv_step o hL (.addOrUpdateListener lc)
+  simp only [step] at hok hL' ⊢
+  rcases addOrUpdateListener_cases s lc with ⟨_, e⟩ | ⟨al, _, _, _, e⟩ | ⟨al, _, hl, ha, _, e⟩ | ⟨_, _, _, e⟩ | ⟨_, hl, _, e⟩
+  · rw [e] at hok; cases hok
+  · rw [e] at hok; cases hok
+  · rw [e] at hL' ⊢
+    refine ⟨⟨{ al.cfg with sf := lc.sf, nf := lc.nf, tlsOk := lc.tlsOk, idle := lc.idle }, lc.sf, lc.nf, lc.idle⟩,
+      by simp, ?_, rfl, rfl, rfl, rfl, rfl, rfl, ha, ?_⟩
+    · exact (hL'.l_some (effName lc) _ (by simp)).1
+    · intro old ho; rw [hl] at ho; cases ho; rfl
+  · rw [e] at hok; cases hok
+  · rw [e] at hL' ⊢
+    refine ⟨⟨{ lc with name := effName lc }, lc.sf, lc.nf, lc.idle⟩, by simp, ?_, rfl, rfl, rfl, rfl, rfl, rfl, rfl, ?_⟩
+    · exact (hL'.l_some (effName lc) _ (by simp)).1
+    · intro old ho; rw [hl] at ho; cases ho
+
 /-! ## removed objects are gone -/
 
 /-- **removed_gone (clusters)**: after a successful `RemovePrimaryCluster names` every named cluster is absent, live and in the
@@ -153,6 +186,16 @@ theorem removed_gone_clusters (o : Oracle) (s : State) (hI : Inv o s) (names : L
     · exact foldl_removeCluster_gone names s hn
     · rename_i h; simp [h] at hok
   exact ⟨hl, hI'.c_none n hl⟩
+
+/-- **removed_gone (listeners)**: after `DeleteListener` the listener is absent, live and in the store. -/
+theorem removed_gone_listeners (o : Oracle) (s : State) (hL : LInv s) (name : String) :
+    (step o s (.deleteListener name)).2 = true ∧
+    (step o s (.deleteListener name)).1.listeners name = none ∧ (step o s (.deleteListener name)).1.lstore name = none := by
+  have hL' := linv_step o hL (.deleteListener name)
+  simp only [step] at hL' ⊢
+  rcases deleteListener_eq s name with ⟨h0, e⟩ | ⟨al, _, e⟩
+  · rw [e]; exact ⟨rfl, h0, hL.l_none name h0⟩
+  · rw [e]; simp
 
 /-- a removed cluster stays absent until an operation adds a cluster of that name again. -/
 theorem removed_stays_gone (o : Oracle) (s : State) (hI : Inv o s) (n : String) (ops : List Op)
@@ -305,22 +348,23 @@ theorem endpoints_union_history (o : Oracle) (ops : List Op) (c : String) (lc : 
 
 /-- `Spec.holds` (coherence of the observation + the declarative post-condition of the last operation) is true of the model's
 observation of every history, for every oracle and every list of observed names that covers the last operation. -/
-theorem spec_holds_on_model (o : Oracle) (ops : List Op) (op : Op) (rnames cnames : List String) (res : List Bool)
-    (hcov : ∀ n ∈ clusterNames op, n ∈ cnames) :
-    Spec.holds (some (op, (step o (run o ops) op).2)) cnames (observe o rnames cnames res (run o (ops ++ [op]))) = true := by
+theorem spec_holds_on_model (o : Oracle) (ops : List Op) (op : Op) (rnames cnames lnames : List String) (res : List Bool)
+    (hcov : ∀ n ∈ clusterNames op, n ∈ cnames) (hcovL : ∀ n ∈ listenerNames op, n ∈ lnames) :
+    Spec.holds (some (op, (step o (run o ops) op).2)) cnames lnames
+      (observe o rnames cnames lnames res (run o (ops ++ [op]))) = true := by
   unfold Spec.holds
   rw [Bool.and_eq_true]
   constructor
-  · exact spec_coherent_on_model o (ops ++ [op]) rnames cnames res
+  · exact spec_coherent_on_model o (ops ++ [op]) rnames cnames lnames res
   · rw [run_append]
-    exact spec_lastOp_on_model o (run o ops) (inv_run o ops) op rnames cnames res hcov
+    exact spec_lastOp_on_model o (run o ops) (inv_run o ops) (linv_run o ops) op rnames cnames lnames res hcov hcovL
 
 /-- … and of the empty history. -/
-theorem spec_holds_on_model_nil (o : Oracle) (rnames cnames : List String) (res : List Bool) :
-    Spec.holds none cnames (observe o rnames cnames res (run o [])) = true := by
+theorem spec_holds_on_model_nil (o : Oracle) (rnames cnames lnames : List String) (res : List Bool) :
+    Spec.holds none cnames lnames (observe o rnames cnames lnames res (run o [])) = true := by
   unfold Spec.holds
   rw [Bool.and_eq_true]
-  exact ⟨spec_coherent_on_model o [] rnames cnames res, rfl⟩
+  exact ⟨spec_coherent_on_model o [] rnames cnames lnames res, rfl⟩
 
 /-! ## non-vacuity: concrete histories exercising the hypotheses -/
 section examples
@@ -355,6 +399,17 @@ example : single (.xdsEndpoints [("c", [[], []])]) ∧ addsCluster "c" (.updateH
 example : ((run exOracle hist).wrappers "r").isSome = true ∧
     (step exOracle (run exOracle hist) (.removeAllRoutes "r" "*")).2 = true ∧
     (step exOracle (run exOracle hist) (.addRoute "r" "a.b" (rt "z"))).2 = true := by decide
+-- listeners: add, update (keeps `keep`, copies sf/nf/idle), rejected updates (address mismatch, bad tls, two chains), delete
+def lcA : ListenerCfg := ⟨"l1", "127.0.0.1:1001", 1, ["vfa"], 1, 0, 7, true⟩
+def lhist : List Op :=
+  [.addOrUpdateListener lcA, .addOrUpdateListener { lcA with sf := ["vfb", "vfa"], idle := 2, keep := 9 },
+   .addOrUpdateListener { lcA with addr := "127.0.0.1:1002", sf := [] }, .addOrUpdateListener { lcA with tlsOk := false, nf := 5 },
+   .addOrUpdateListener { lcA with chains := 2 }, .addOrUpdateListener { lcA with name := "", addr := "127.0.0.1:1003" },
+   .deleteListener "nope"]
+example : results exOracle init lhist = [true, true, false, false, false, true, true] := by decide
+example : (run exOracle lhist).listeners "l1" = some ⟨{ lcA with sf := ["vfb", "vfa"], idle := 2 }, ["vfb", "vfa"], 1, 2⟩ := by decide
+example : ((run exOracle lhist).lstore "127.0.0.1:1003").map (·.name) = some "127.0.0.1:1003" := by decide
+example : (run exOracle (lhist ++ [.deleteListener "l1"])).lstore "l1" = none := by decide
 end examples
 
 end MosnVerif.Props.C12
